@@ -5,7 +5,7 @@ Item specs:
     IMPL::NAME                   method NAME inside the impl block whose header (text between
                                  `impl` and `{`, whitespace-normalised, generics kept) equals IMPL,
                                  e.g. `FixedBitfield::get`, `CompactEncoding for Node::decode`
-    struct NAME / enum NAME / const NAME / static NAME / type NAME / macro NAME
+    struct NAME / enum NAME / const NAME / static NAME / type NAME / macro NAME / invoke NAME (consecutive NAME!(..); items)
 """
 import re
 from . import lex
@@ -152,11 +152,32 @@ class Source:
             # tuple struct `struct X(..);`
         return (self._with_attrs(start) if kind != "macro" else start), end
 
+    def find_invocations(self, name):
+        """the run of consecutive top-level `NAME!(..);` invocations of a macro (nothing but white space in between)"""
+        spans = []
+        for m in re.finditer(r"\b%s!\s*\(" % re.escape(name), self.masked):
+            if self.depth_at(m.start()) != 0:
+                continue
+            close = lex.match_close(self.masked, m.end() - 1)
+            t = close + 1
+            while t < len(self.masked) and self.masked[t] in " \t":
+                t += 1
+            if t < len(self.masked) and self.masked[t] == ";":
+                spans.append((m.start(), t + 1))
+        if not spans:
+            raise ExtractError("no top-level invocation of %s! in %s" % (name, self.path))
+        for (a, b), (c, d) in zip(spans, spans[1:]):
+            if self.text[b:c].strip():
+                raise ExtractError("invocations of %s! are not consecutive in %s" % (name, self.path))
+        return spans[0][0], spans[-1][1]
+
     def find(self, spec):
         spec = spec.strip()
-        m = re.match(r"(struct|enum|const|static|type|macro|fn)\s+(\w+)$", spec)
+        m = re.match(r"(struct|enum|const|static|type|macro|fn|invoke)\s+(\w+)$", spec)
         if m:
             kind, name = m.groups()
+            if kind == "invoke":
+                return self.find_invocations(name)
             if kind == "fn":
                 return self.find_fn(name, depth=0)
             return self.find_decl(kind, name)
